@@ -7264,6 +7264,8 @@ fn eval_block(env: &mut Env, expr_value_is_used: bool, block: &Block) {
 }
 
 fn eval_break(env: &mut Env, expr_value_is_used: bool) {
+    let mut value_is_used = expr_value_is_used;
+
     // Pop all the currently evaluating expressions until we are no
     // longer inside the innermost loop.
     while let Some((expr_state, expr)) = env.current_frame_mut().exprs_to_eval.pop() {
@@ -7301,6 +7303,10 @@ fn eval_break(env: &mut Env, expr_value_is_used: bool) {
                     env.current_frame_mut().bindings.pop_block();
                 }
 
+                // The value we push below stands for the loop's value,
+                // so it is the loop that decides whether it is used.
+                value_is_used = expr.value_is_used;
+
                 env.current_frame_mut()
                     .exprs_to_eval
                     .push((ExpressionState::EvaluatedSubexpressions, expr));
@@ -7329,7 +7335,7 @@ fn eval_break(env: &mut Env, expr_value_is_used: bool) {
     }
 
     // Loops always evaluate to unit.
-    if expr_value_is_used {
+    if value_is_used {
         env.push_value(Value::unit());
     }
 }
